@@ -33,6 +33,16 @@ def impl_env():
     return env
 
 
+def quiet_stderr(prop):
+    """Spawned children inherit fd 2 and log tracebacks of deliberately provoked failures;
+    keep them out of the check's output (they go to scratch/<prop>.stderr.log)."""
+    os.makedirs(os.path.join(VERIF, 'scratch'), exist_ok=True)
+    fd = os.open(os.path.join(VERIF, 'scratch', f'{prop}.stderr.log'), os.O_WRONLY | os.O_CREAT | os.O_TRUNC, 0o644)
+    sys.stderr.flush()
+    os.dup2(fd, 2)
+    os.close(fd)
+
+
 # ----------------------------------------------------------------- generation
 def generators():
     import gen_framing
